@@ -44,6 +44,9 @@ func (g *G) Str(label string) string {
 func (g *G) intn(label string, lo, hi int) int { return rapid.IntRange(lo, hi).Draw(g.T, label) }
 
 func (g *G) size(label string, small int) int {
+	if g.O.BigMaps && g.intn(label+"wide", 0, 39) == 0 {
+		return g.intn(label+"wn", 65, 90)
+	}
 	if g.O.BigMaps && g.intn(label+"big", 0, 5) == 0 {
 		return g.intn(label+"n", 9, 20)
 	}
@@ -64,7 +67,11 @@ func (g *G) EnvMap(label string, small int) map[string]string {
 	n := g.size(label, small)
 	m := make(map[string]string, n)
 	for i := 0; i < n; i++ {
-		m[g.EnvName(label+"k")] = g.Str(label + "v")
+		k := g.EnvName(label + "k")
+		if n > 20 {
+			k = fmt.Sprintf("%s_%d", k, i)
+		}
+		m[k] = g.Str(label + "v")
 	}
 	return m
 }
